@@ -485,6 +485,61 @@ def frb (w : World) (c : Caches) (r : Req) : Except Err Arr × Caches :=
           (.ok a, ⟨upd c.array id (some ⟨r.data, boundsForCache r.bounds (dimsAllOf axes), r.target,
             r.what, r.broadcast, a⟩), upd c.pixel id pc⟩)
 
+/-! ### the array cache with an arbitrary hit test
+
+`ARRAY_CACHE[cache_id]['hash'] == current_array_hash` replaced by an arbitrary relation between the
+stored entry and the request (a tolerance comparison, rounded / down-cast bounds, a coarser tuple …).
+The code is the instance `hit := ArrayEntry.matches`.  Used by `cache_key_exact_needed`. -/
+
+def arrayHitWith (hit : ArrayEntry → Req → Bool) (c : Caches) (id : Nat) (r : Req) : Option Arr :=
+  match c.array id with
+  | some e => if hit e r then some e.array else none
+  | none => none
+
+/-- `frb` with the hit test of `ARRAY_CACHE` as a parameter. -/
+def frbWith (hit : ArrayEntry → Req → Bool) (w : World) (c : Caches) (r : Req) : Except Err Arr × Caches :=
+  if !boundsValid r.bounds then (.error .valueError, c) else
+  match r.cacheId with
+  | none => (frbUncached w r, c)
+  | some id =>
+    match arrayHitWith hit c id r with
+    | some a => (.ok a, c)
+    | none =>
+      match axesCached w r (List.range (w.ndim r.data)) (pixelStart c id r) with
+      | (.error e, pc) => (.error e, ⟨c.array, upd c.pixel id pc⟩)
+      | (.ok axes, pc) =>
+        match finish w r axes with
+        | .error e => (.error e, ⟨c.array, upd c.pixel id pc⟩)
+        | .ok a =>
+          (.ok a, ⟨upd c.array id (some ⟨r.data, boundsForCache r.bounds (dimsAllOf axes), r.target,
+            r.what, r.broadcast, a⟩), upd c.pixel id pc⟩)
+
+/-- Answers of a history of requests, caches threaded through. -/
+def runReqsWith (hit : ArrayEntry → Req → Bool) (w : World) : Caches → List Req → List (Except Err Arr)
+  | _, [] => []
+  | c, r :: rs => (frbWith hit w c r).1 :: runReqsWith hit w (frbWith hit w c r).2 rs
+
+def absRat (q : Rat) : Rat := if q < 0 then -q else q
+
+/-- `np.allclose(a, b, rtol, atol)` on one number: `|a − b| ≤ atol + rtol·|b|`. -/
+def closeTo (atol rtol a b : Rat) : Bool := decide (absRat (a - b) ≤ atol + rtol * absRat b)
+
+def boundClose (atol rtol : Rat) : Bound → Bound → Bool
+  | .scalar a, .scalar b => closeTo atol rtol a b
+  | .range lo hi n, .range lo' hi' n' => closeTo atol rtol lo lo' && closeTo atol rtol hi hi' && decide (n = n')
+  | _, _ => false
+
+def closeAll (atol rtol : Rat) : List KB → List Bound → Bool
+  | [], [] => true
+  | .any :: ks, b :: bs => !b.isRange && closeAll atol rtol ks bs
+  | .lit b :: ks, b' :: bs => boundClose atol rtol b b' && closeAll atol rtol ks bs
+  | _, _ => false
+
+/-- The hit test of `ARRAY_CACHE` with the bounds compared by `np.allclose`. -/
+def ArrayEntry.closeMatches (atol rtol : Rat) (e : ArrayEntry) (r : Req) : Bool :=
+  decide (e.data = r.data) && closeAll atol rtol e.kbs r.bounds && decide (e.target = r.target) &&
+    decide (e.what = r.what) && decide (e.broadcast = r.broadcast)
+
 /-! ### histories -/
 
 inductive Op
